@@ -187,23 +187,12 @@ func checkC15(c *Ctx, r *Result, tier string) {
 	}
 	r.Floor("R15c", total, 40)
 
-	// R15g: the wait predicate of a suspended thread (interrogationState.running) is written only
-	// while the debugger lock is held (in any mode; commands hold it shared together with the
-	// condition's lock, the thread itself holds it exclusively when it publishes "suspended"). A
-	// write made after the lock was released can overwrite a continue command that arrived in
-	// between — the thread then waits for a command that was already given.
-	if f := c.Field("interpreter", "interrogationState", "running"); f != nil {
-		nRun := g.check(r, "R15g", GuardSpec{Field: f, FieldName: "interrogationState.running", Lock: "interpreter.ecalDebugger.lock", WritesOnly: true, AnyModeOK: true},
-			ifuncs, func(fn *ssa.Function) string {
-				if strings.HasPrefix(fn.Name(), "newInterrogationState") {
-					return "constructor: the state is not shared yet"
-				}
-				return ""
-			})
-		r.Floor("R15g", nRun, 4)
-	} else {
-		r.Undecide("R15g: interrogationState.running not found")
-	}
+	// R15g: once a thread's state is visible as suspended (running == false published under the
+	// debugger lock: stored under it, or a fresh state entered into the table) and the debugger
+	// lock has been released, a continue command may arrive at any moment. The thread must not
+	// write running = false again before it waits — that overwrites the command and the thread
+	// waits for something that was already given.
+	c15NoPredicateReset(c, r, lfs)
 
 	// ---- R15e ---------------------------------------------------------------------------------
 	c15BreakOnError(c, r, dbgIface)
@@ -520,4 +509,104 @@ func c15StopAll(c *Ctx, r *Result, dbgIface *types.Interface) {
 		})
 	}
 	r.Floor("R15f", n, 1)
+}
+
+
+func c15NoPredicateReset(c *Ctx, r *Result, lfs *LockFlows) {
+	fRunning := c.Field("interpreter", "interrogationState", "running")
+	fStates := c.Field("interpreter", "ecalDebugger", "interrogationStates")
+	if fRunning == nil || fStates == nil {
+		r.Undecide("R15g: interrogationState.running / ecalDebugger.interrogationStates not found")
+		return
+	}
+	isFalseStore := func(in ssa.Instruction) bool {
+		st, ok := in.(*ssa.Store)
+		if !ok {
+			return false
+		}
+		fa, ok := st.Addr.(*ssa.FieldAddr)
+		if !ok || fieldVar(fa) != fRunning {
+			return false
+		}
+		cv, ok := st.Val.(*ssa.Const)
+		return ok && cv.Value != nil && cv.Value.String() == "false"
+	}
+	// helpers that reset the predicate
+	resets := map[*ssa.Function]bool{}
+	for _, fn := range c.ModFuncs() {
+		if c.PkgOf(fn) != "interpreter" || strings.HasPrefix(fn.Name(), "newInterrogationState") {
+			continue
+		}
+		allInstrs(fn, func(in ssa.Instruction) {
+			if isFalseStore(in) {
+				resets[fn] = true
+			}
+		})
+	}
+	dbgLock := func(lf *LockFlow, in ssa.Instruction) bool {
+		if lf == nil {
+			return false
+		}
+		for p, cl := range lf.ClassOf {
+			if strings.HasPrefix(cl, "interpreter.ecalDebugger") && lf.MustHoldPath(in, p, false) {
+				return true
+			}
+		}
+		return false
+	}
+	n := 0
+	for _, fn := range c.ModFuncs() {
+		if c.PkgOf(fn) != "interpreter" {
+			continue
+		}
+		lf := lfs.Of(fn)
+		// publications: running = false stored with the debugger lock held exclusively, or a state entered into the table
+		var pubs []ssa.Instruction
+		allInstrs(fn, func(in ssa.Instruction) {
+			if isFalseStore(in) && dbgLock(lf, in) {
+				pubs = append(pubs, in)
+			}
+			if mu, ok := in.(*ssa.MapUpdate); ok {
+				if ld, ok := mu.Map.(*ssa.UnOp); ok {
+					if fa, ok := ld.X.(*ssa.FieldAddr); ok && fieldVar(fa) == fStates {
+						pubs = append(pubs, in)
+					}
+				}
+			}
+		})
+		if len(pubs) == 0 {
+			continue
+		}
+		key := c.FuncKey(fn)
+		ord := newOrdinals()
+		bad := false
+		allInstrs(fn, func(in ssa.Instruction) {
+			reset := isFalseStore(in)
+			if call, ok := in.(*ssa.Call); ok {
+				if f := call.Call.StaticCallee(); f != nil && resets[f] && f != fn {
+					reset = true
+				}
+			}
+			if !reset || dbgLock(lf, in) {
+				return
+			}
+			for _, p := range pubs {
+				if p != in && canReach(p, in) {
+					n++
+					bad = true
+					site := ord.key(key, "predicate-reset", "")
+					pos := c.Pos(c.InstrPos(in))
+					r.Instance("R15g", site, pos, "finding", "running reset to false after publication", true)
+					r.Report(Finding{Rule: "R15g", Site: site, Pos: pos,
+						Msg: fmt.Sprintf("%s: the thread's state is published as suspended at %s, the debugger lock is released, and running is then set to false again before waiting: a continue or stop command that arrives in between is overwritten and the thread waits forever although the command was given", key, c.Pos(c.InstrPos(p)))})
+					return
+				}
+			}
+		})
+		if !bad {
+			n++
+			r.Instance("R15g", key+"#publication", c.Pos(fn.Pos()), "ok", fmt.Sprintf("%d publication(s) of a suspended state; running is not written again before the wait", len(pubs)), true)
+		}
+	}
+	r.Floor("R15g", n, 2)
 }
